@@ -58,6 +58,7 @@ class Scheduler(object):
         self.order = []        # creation order (deterministic iteration)
         self.current = None
         self.choices = []      # recorded decisions (thread names), only where > 1 runnable
+        self.choice_sets = []  # runnable thread names at each recorded decision
         self.steps = 0
         self.switches = 0
         self.aborting = False
@@ -106,6 +107,7 @@ class Scheduler(object):
         if len(runnable) == 1:
             return runnable[0]
         names = [t.name for t in runnable]
+        self.choice_sets.append(names)
         if self.replay is not None:
             if self.replay_pos < len(self.replay):
                 want = self.replay[self.replay_pos]
